@@ -10,12 +10,14 @@ import (
 	"bytes"
 	"fmt"
 	"go/ast"
+	"go/token"
 	"go/types"
 	"os"
 	"os/exec"
 	"path/filepath"
 	"regexp"
 	"sort"
+	"strconv"
 	"strings"
 	"time"
 )
@@ -163,6 +165,9 @@ func classify(ref *funcRef) string {
 	}
 	if sig.Recv() != nil && strings.HasSuffix(typeStr(sig.Recv().Type()), "executableSchema") && name == "Exec" {
 		return "exec"
+	}
+	if sig.Recv() != nil && strings.HasSuffix(typeStr(sig.Recv().Type()), "executableSchema") && name == "Complexity" {
+		return "complexityswitch"
 	}
 	inModelsGen := strings.HasSuffix(ref.pkg.Fset.Position(fd.Pos()).Filename, "models-gen.go") || strings.HasSuffix(ref.pkg.Fset.Position(fd.Pos()).Filename, "models_gen.go")
 	if inModelsGen && sig.Recv() != nil && name == "UnmarshalGQL" && sig.Params().Len() == 1 {
@@ -380,6 +385,9 @@ func (s *Session) familyUnitsImpl(id string, probes []ProbeResult, re *regexp.Re
 			keep = append(keep, o)
 		}
 		u.Obls = keep
+		if in.kind == "complexityswitch" {
+			u.Obls = append(u.Obls, complexityLabelObligations(u.Short, in.ref)...)
+		}
 		units = append(units, u)
 		// closure members (inner functions the object executor hands to the scheduler)
 		sub := byKind[in.kind+"$closure"]
@@ -487,4 +495,84 @@ func closureIsMember(ref *funcRef, fl *ast.FuncLit, fam *Contract) bool {
 		return true
 	})
 	return member
+}
+
+// complexityLabelObligations: the generated Complexity method dispatches on the string typeName+"."+field that the
+// complexity walker builds from the SCHEMA names. Every case label must therefore be "T.f" for a type T and field f
+// of the generated schema - decided against the generated package itself: the field context function
+// fieldContext_T_f exists exactly for the schema's (T, f) pairs - and every such pair of a non-introspection type
+// must have its label (otherwise the user's complexity function for it is never consulted). Syntactic obligations,
+// one per label / pair; no solver involved.
+func complexityLabelObligations(short string, ref *funcRef) []*Obligation {
+	pairs := map[string]bool{}
+	scope := ref.pkg.Types.Scope()
+	addName := func(n string) {
+		if strings.HasPrefix(n, "fieldContext_") {
+			pairs[strings.TrimPrefix(n, "fieldContext_")] = true
+		}
+	}
+	for _, n := range scope.Names() {
+		addName(n)
+		if tn, ok := scope.Lookup(n).(*types.TypeName); ok && n == "executionContext" {
+			ms := types.NewMethodSet(types.NewPointer(tn.Type()))
+			for i := 0; i < ms.Len(); i++ {
+				addName(ms.At(i).Obj().Name())
+			}
+		}
+	}
+	var out []*Obligation
+	labels := map[string]bool{}
+	ast.Inspect(ref.fd.Body, func(n ast.Node) bool {
+		cc, ok := n.(*ast.CaseClause)
+		if !ok {
+			return true
+		}
+		for _, x := range cc.List {
+			bl, ok := x.(*ast.BasicLit)
+			if !ok || bl.Kind != token.STRING {
+				continue
+			}
+			lab, err := strconv.Unquote(bl.Value)
+			if err != nil || !strings.Contains(lab, ".") {
+				continue
+			}
+			labels[lab] = true
+			t, f, _ := strings.Cut(lab, ".")
+			st := "unsat"
+			msg := ""
+			if !pairs[t+"_"+f] {
+				st = "sat"
+				msg = "the label names no (type, field) pair of the generated schema: there is no fieldContext_" + t + "_" + f
+			}
+			out = append(out, &Obligation{Name: short + ":label:" + lab, Goal: "case label is T.f for a type and field of the schema", Pos: ref.pkg.Fset.Position(bl.Pos()), Result: SolveResult{Status: st, Backend: "syntactic", Model: msg}})
+		}
+		return true
+	})
+	if len(labels) == 0 {
+		return out // complexity generation is switched off (omit_complexity)
+	}
+	var names []string
+	for p := range pairs {
+		names = append(names, p)
+	}
+	sort.Strings(names)
+	for _, p := range names {
+		if strings.HasPrefix(p, "__") || strings.Contains(p, "___") {
+			continue // introspection types and the reserved __schema/__type fields carry no complexity functions
+		}
+		t, f, _ := strings.Cut(p, "_")
+		// type names may contain underscores: accept any split position that yields a label
+		found := false
+		for i := 0; i < len(p); i++ {
+			if p[i] == '_' && labels[p[:i]+"."+p[i+1:]] {
+				found = true
+			}
+		}
+		if found {
+			continue
+		}
+		_ = f
+		out = append(out, &Obligation{Name: short + ":label-missing:" + p, Goal: "every (type, field) pair of the schema has its case label", Pos: ref.pkg.Fset.Position(ref.fd.Pos()), Result: SolveResult{Status: "sat", Backend: "syntactic", Model: "no case label for " + t + "…: " + p}})
+	}
+	return out
 }
